@@ -7,7 +7,7 @@ references as (table, id)).  `look_for_number` is additionally compared at funct
 from . import common, l2, recipes
 
 SPEC = {
-    "lean": ["SnowModel.Props.C03", "SnowModel.Props.C03Bridge"],
+    "lean": ["SnowModel.Props.C03", "SnowModel.Props.C03Bridge", "SnowModel.Props.L1Bridge"],
     "pins": ["Runtime", "ObjectRows", "ObjectModel", "TemplateUtils"],
     "technique": "Lean 4 executable reference interpreter (L2) with theorems pinning the documented rules (count/child_index, nested-before-parent, friends-after, latest-row-wins, scope order, declaration order, v2 coercion) + AST pins (override orders, row-generation statement order, look_for_number) + row-for-row differential against the real interpreter on generated programs in both dialects",
     "level_text": "The property *is* a differential against an independent reference interpreter; that interpreter is a Lean definition whose documented rules are machine-checked theorems (for every recipe, state and fuel), and the real interpreter is compared with it row for row and value for value on generated programs of the deterministic core language under snowfakery_version 2 and 3.",
@@ -62,7 +62,15 @@ def run_cases(cases, rep):
         metas.append((case, chain))
     res = common.model_batch(reqs)
     for (case, chain), m in zip(metas, res):
+        ndis = len(rep.disagreements)
         r = l2.compare(rep, "l2", {"recipe": case["recipe"], "parts": case["parts"], "ast": case["ast"]}, chain, m)
+        if r == "disagree" and len(rep.disagreements) > ndis:
+            # the property *is* equality with the independent reference interpreter: a program on
+            # which the real interpreter differs from it is a failing input
+            d = rep.disagreements[-1]
+            rep.violation("C03:differs-from-reference-interpreter",
+                          f"{d['what']}: the real interpreter gives {str(d['code'])[:300]} where the reference interpreter gives {str(d['model'])[:300]}",
+                          {"recipe": case["recipe"], "parts": case["parts"], "ast": case["ast"]}, d["model"], d["code"])
         rep.count("compare:" + r)
         rep.count("real-outcome:" + chain.outcome.split(":")[0])
         if r != "outside":
@@ -128,3 +136,14 @@ def run(ctx, rep, findings):
 
 def replay(case, rep):
     run_cases([(case["ast"], case["parts"])], rep)
+
+
+def shrink(case, signature):
+    def fails(rc):
+        r = common.Report("C03")
+        run_cases([(rc, case["parts"])], r)
+        return any(v["signature"] == signature for v in r.violations)
+
+    parts = case["parts"]
+    rc = l2.shrink_ast(case["ast"], fails)
+    return {"recipe": recipes.recipe_yaml(rc), "parts": parts, "ast": rc}
